@@ -27,7 +27,7 @@ ModelKinds == AllKinds \ {"LT"}
 
 BlockKinds2   == {"P", "DIV", "H", "UL", "OL", "LI", "BQ", "PRE", "MRK", "BODY"}
 MediaLeaf     == {"IMG", "VID", "EMB", "FIG", "FIGL", "TW"}
-SilentKinds   == {"HID", "HIN", "SKS"}
+SilentKinds   == {"HID", "HIN", "SKS", "SHR"}       \* SHR: class "sharing" / "socialArea", data-component "share"
 AnchorKinds   == {"A", "AJ"}
 TextLike      == {"T", "t", "W"}
 
